@@ -20,6 +20,10 @@ CONFIGS = {
                        "-DPP_METHD=LAZYR;OATEP"], "cflags": "-O2"},
     "cov": {"cmake": [], "cflags": "-O1 -g -finstrument-functions"},
     "mt": {"cmake": ["-DMULTI=PTHREAD"], "cflags": "-O2"},
+    # C06: the RSA padding is a compile-time choice (base = PKCS2/OAEP with CRT); the plain (non-CRT) private-key paths
+    "cp-pkcs1": {"cmake": ["-DCP_RSAPD=PKCS1", "-DCP_CRT=off"], "cflags": "-O2"},
+    "cp-basic": {"cmake": ["-DCP_RSAPD=BASIC"], "cflags": "-O2"},
+    "cp-2048": {"cmake": ["-DBN_PRECI=2048"], "cflags": "-O2"},
 }
 
 
